@@ -46,6 +46,11 @@ func runC12(r *R) {
 		sp.GunErrAt = 1 + w.Draw(sp.Startup.Tokens+1) // gun #0 is the warm-up gun
 	}
 	r.Sample(sp.describe())
+	// one run in four: another pool of the same engine runs beside the observed one (ids are numbered per pool)
+	sp.ExtraPool = w.Draw(4) == 0
+	if sp.ExtraPool {
+		r.Note("second-pool-in-the-engine")
+	}
 	res := runEngine(r, sp, 48*time.Hour)
 	if r.Failed() || res.Log == nil {
 		return
@@ -185,7 +190,8 @@ func checkStartup(r *R, sp engSpec, res *engResult) {
 			break
 		}
 	}
-	if int(res.Metrics.InstanceStart.Get()) != started {
+	// (the counters are the engine's, not the pool's: with a second pool they count its instance too)
+	if !sp.ExtraPool && int(res.Metrics.InstanceStart.Get()) != started {
 		r.Fail("metrics/instance-start", "Metrics.InstanceStart=%d, %d instances were created and bound", res.Metrics.InstanceStart.Get(), started)
 	}
 	if res.RunErr != nil || cancelAt >= 0 || gunErrAt >= 0 {
